@@ -2,6 +2,7 @@ package props
 
 import (
 	"bytes"
+	"context"
 	"cosmossdk.io/math"
 	"encoding/gob"
 	"encoding/hex"
@@ -231,7 +232,7 @@ func c08(r *core.Run) []*core.Violation {
 	r.Stats.ProbeN("leader_txs", nTx)
 	var viols []*core.Violation
 	kinds := []string{"env", "restart", "queries", "plain"}
-	reps := 2
+	reps := 1
 	if r.Tier == "thorough" {
 		reps = 3
 	}
@@ -266,7 +267,11 @@ func c08(r *core.Run) []*core.Violation {
 		}
 	}
 	// F4: another OS process, GOMAXPROCS=1, other TZ, variable set from the start, and (faketime build) another wall clock
-	if len(viols) == 0 && t.Draw(2) == 0 {
+	otherProcessOneIn := uint64(4) // the fake-clock follower is slow (about ten times an ordinary one): used sparingly in the quick tier
+	if r.Tier == "thorough" {
+		otherProcessOneIn = 2
+	}
+	if len(viols) == 0 && t.Draw(otherProcessOneIn) == 0 {
 		if h, what, err := followInSubprocess(hist); err != nil {
 			core.Harnessf("subprocess follower: %v", err)
 		} else if h != 0 {
@@ -274,6 +279,10 @@ func c08(r *core.Run) []*core.Violation {
 				fmt.Sprintf("another OS process (GOMAXPROCS=1, another TZ, %s set, wall clock of the Go runtime's fake time, i.e. 2009) diverged from the leader at height %d: %s", envFF, h, what)))
 		}
 		r.Stats.Probe("followers_other_process")
+		if followerTimeouts > 0 {
+			r.Stats.ProbeN("fake_clock_follower_abandoned", int64(followerTimeouts))
+			followerTimeouts = 0
+		}
 	}
 	r.Stats.Probe("target")
 	r.Sample = []string{fmt.Sprintf("leader: %d vals, %d chains, %d blocks, %d txs; followers env=%d restart=%d queries=%d plain=%d other-process=%d",
@@ -307,6 +316,9 @@ func FollowFile(path string) {
 	fmt.Println(string(out))
 }
 
+// followerTimeouts counts fake-clock followers that were abandoned (reported as a probe by the scenario).
+var followerTimeouts int
+
 func followInSubprocess(h *History) (int64, string, error) {
 	dir := world.ScratchRoot()
 	path := dir + "/history.gob"
@@ -330,16 +342,44 @@ func followInSubprocess(h *History) (int64, string, error) {
 	// time zones with and without daylight saving, east and west of UTC (calendar arithmetic in local time differs)
 	tz := []string{"Asia/Tokyo", "America/New_York", "Pacific/Kiritimati", "Europe/Berlin"}[len(h.Blocks)%4]
 	env := append(os.Environ(), "GOMAXPROCS=1", "TZ="+tz, envFF+"=1")
-	if _, err := os.Stat(exe + "-faketime"); err == nil {
-		exe += "-faketime"
-		env = append(env, "VERIF_FOLLOW_OUT="+resPath)
+	run := func(bin string, env []string, limit time.Duration) (bytes.Buffer, error, bool) {
+		ctx, cancel := context.WithTimeout(context.Background(), limit)
+		defer cancel()
+		cmd := exec.CommandContext(ctx, bin, "follow", "-tape", path)
+		cmd.Env = env
+		var out, errb bytes.Buffer
+		cmd.Stdout, cmd.Stderr = &out, &errb
+		err := cmd.Run()
+		if ctx.Err() == context.DeadlineExceeded {
+			return out, fmt.Errorf("follower did not finish within %s", limit), true
+		}
+		if err != nil {
+			return out, fmt.Errorf("%v: %s", err, errb.String()), false
+		}
+		return out, nil, false
 	}
-	cmd := exec.Command(exe, "follow", "-tape", path)
-	cmd.Env = env
-	var out, errb bytes.Buffer
-	cmd.Stdout, cmd.Stderr = &out, &errb
-	if err := cmd.Run(); err != nil {
-		return 0, "", fmt.Errorf("%v: %s", err, errb.String())
+	var out bytes.Buffer
+	done := false
+	if _, err := os.Stat(exe + "-faketime"); err == nil {
+		// the fake clock only advances while every goroutine is blocked; a follower that does not finish in time under
+		// it is abandoned (bounded real time) and the ordinary binary is used instead
+		o, err, timedOut := run(exe+"-faketime", append(append([]string(nil), env...), "VERIF_FOLLOW_OUT="+resPath), 90*time.Second)
+		switch {
+		case err == nil:
+			out, done = o, true
+		case !timedOut:
+			return 0, "", err
+		default:
+			os.Remove(resPath)
+			followerTimeouts++
+		}
+	}
+	if !done {
+		o, err, _ := run(exe, env, 300*time.Second)
+		if err != nil {
+			return 0, "", err
+		}
+		out = o
 	}
 	if bz, err := os.ReadFile(resPath); err == nil {
 		out.Reset()
